@@ -135,6 +135,8 @@ class CastOracle:
                 so = ort.SessionOptions()
                 so.graph_optimization_level = ort.GraphOptimizationLevel.ORT_DISABLE_ALL
                 so.log_severity_level = 4
+                so.intra_op_num_threads = 1
+                so.inter_op_num_threads = 1
                 s = ort.InferenceSession(m.SerializeToString(), so, providers=["CPUExecutionProvider"])
                 o = obs_of_array(s.run(None, {"like": like})[0], target_code)
                 self.ort_used += 1
